@@ -23,6 +23,25 @@ pub fn run_setup(subseed: u64, start_s: i64) {
 /// store operations performed while no scheduler is active (free mode).
 pub static EPOCH: std::sync::atomic::AtomicU64 = std::sync::atomic::AtomicU64::new(0);
 
+/// in-memory debug log (VERIF_DBG): printing would perturb the timing it is meant to show
+pub static DBG: std::sync::Mutex<Vec<String>> = std::sync::Mutex::new(Vec::new());
+pub fn dbg_on() -> bool {
+    static ON: std::sync::OnceLock<bool> = std::sync::OnceLock::new();
+    *ON.get_or_init(|| std::env::var("VERIF_DBG").is_ok())
+}
+pub fn dbg_push(s: String) {
+    if dbg_on() {
+        DBG.lock().unwrap().push(s);
+    }
+}
+pub fn dbg_dump() {
+    if dbg_on() {
+        for l in DBG.lock().unwrap().iter() {
+            eprintln!("DBG {l}");
+        }
+    }
+}
+
 pub fn bump_epoch() {
     let _ = EPOCH.fetch_add(1, std::sync::atomic::Ordering::SeqCst);
 }
@@ -41,6 +60,12 @@ pub fn arm_nonce(seed: u64) {
         h.update(ph);
         h.update(EPOCH.load(std::sync::atomic::Ordering::SeqCst).to_le_bytes());
         let d = h.finalize();
+        if dbg_on() {
+            dbg_push(format!("nonce epoch={} plain={:02x}{:02x}{:02x} len={} tid={}", EPOCH.load(std::sync::atomic::Ordering::SeqCst), ph[0], ph[1], ph[2], plain.len(), unsafe { libc::syscall(libc::SYS_gettid) }));
+        }
+        if std::env::var("VERIF_NONCE_TRACE").is_ok() {
+            eprintln!("NONCE epoch={} plain={:02x}{:02x}{:02x} len={} thread={:?}", EPOCH.load(std::sync::atomic::Ordering::SeqCst), ph[0], ph[1], ph[2], plain.len(), std::thread::current().name());
+        }
         let l = nonce.len().min(16);
         nonce[..l].copy_from_slice(&d[..l]);
     })));
